@@ -5,7 +5,7 @@ from . import core, check
 
 VERIF = core.VERIF
 
-# what each property's check does NOT decide (see DESIGN.md section 5)
+# what each property's check does NOT decide (see DESIGN.md section 4)
 DECLINED = {
     'C01': 'that the elected completion path is also reached under every schedule (liveness); behaviour of user-supplied senders/receivers.',
     'C02': 'cross-thread destruction orderings beyond the election/typestate rules; destructor contents of user types.',
@@ -13,7 +13,7 @@ DECLINED = {
     'C04': 'that running children actually observe the request at run time; promptness of completion after a stop request.',
     'C05': 'value equality of forwarded results beyond argument identity; when_any "first" under races; numeric results.',
     'C06': 'which thread a completion runs on (dynamic thread identity); absence of lost wake-ups as a temporal property; fairness of work distribution.',
-    'C07': 'exactness/total order of time_point arithmetic; real-time promptness of cancellation.',
+    'C07': 'exactness/total order of time_point arithmetic (value reasoning; seeded change C07-s2 is outside reach); real-time promptness of cancellation.',
     'C08': 'the admission-versus-close race as a property of all histories.',
     'C09': 'value identity of the result across the heap cell; exhaustive exploration of all orderings of the future state machine (a model-checking question).',
     'C10': 'coroutine frame semantics that belong to the compiler: order of at_coroutine_exit actions, destruction of locals, round-tripping of awaitables.',
@@ -30,10 +30,10 @@ DECLINED = {
 }
 TECHNIQUE = {
     'C03': 'lock-held dataflow + dominance/must-pass path rules + memory-order role table over clang CFGs (libTooling)',
-    'C12': 'custom AST/CFG query over all receiver classes (libTooling facts) with a reasoned exemption table',
+    'C12': 'custom AST/CFG query over all receiver classes (libTooling facts) with a reasoned exemption table + compile-only query-forwarding witnesses (clang -fsyntax-only) + the scoped path/typestate rules',
     'C20': 'cross-configuration AST/CFG differential + assertion-purity lint + path-set comparison of if-constexpr arms',
 }
-DEFAULT_TECHNIQUE = 'interprocedural must/may path analysis on inlined clang CFGs of template patterns (libTooling) + memory-order role table'
+DEFAULT_TECHNIQUE = 'interprocedural must/may path and typestate analysis on inlined clang CFGs of template patterns (libTooling) + frozen role tables (memory orders, atomic/state constants, branch polarity, guards, data-flow edges, member types) + compile-only type-level witnesses'
 
 
 def main():
@@ -59,9 +59,9 @@ def main():
                 category='other',
                 text='Static analysis of necessary structural conditions, on every path of the real source (template patterns included), in '
                      '%s configurations (quick: c++20 and gnu++17 with asserts, gnu++17 NDEBUG = the pinned build; thorough adds c++20 NDEBUG and the continuation-visitation build). DECIDED: %s '
-                     'NOT DECIDED (declined, see DESIGN.md section 5): %s A green check means these clauses hold on all paths; it does not prove the behavioural '
+                     'NOT DECIDED (declined, see DESIGN.md section 4): %s A green check means these clauses hold on all paths; it does not prove the behavioural '
                      'property for all schedules.' % ('3/5', c['decided'], c['declined']),
-                design_ref='DESIGN.md section 5 (%s), section 3.3 (rules %s)' % (pid, ', '.join(r['id'] for r in rules))),
+                design_ref='DESIGN.md section 4 (%s), section 3 (rules %s; plus the safety rules scoped to the files %s is anchored in)' % (pid, ', '.join(r['id'] for r in rules), pid)),
             level_note='Trusted base: clang 14 front end and CFG builder; tools/usa-extract; the role tables in usa/rules (each row a named construct with a reason). '
                        'Rules report analysis-broken (exit 2) when an anchor construct cannot be found, never a pass.',
             technique=c['technique']))
